@@ -197,4 +197,31 @@ theorem py_members_nonvacuous :
     (members.filter (fun r => r.2.2.onOk ≠ [])).length ≥ 6 ∧ (members.filter (fun r => r.2.2.getter ≠ [])).length ≥ 2 := by
   decide +kernel
 
+/-! ### the by-value result is allocated exactly once on every default-argument path -/
+
+theorem emitPath_not_pending (pre : List Ev) (sites : List Bool) : emitPath pre sites false = [] := by
+  induction sites with
+  | nil => rfl
+  | cons r rs ih => simp [emitPath, ih]
+
+/-- if every emission site resets the pending list, each executed path - whichever `case` of the
+    default-argument switch is taken - runs the result's pre_call (the wrapper's allocation) exactly once -/
+theorem result_pre_call_once (pre : List Ev) (sites : List Bool) (hne : sites ≠ [])
+    (hall : ∀ r ∈ sites, r = true) : emitPath pre sites true = pre := by
+  cases sites with
+  | nil => exact absurd rfl hne
+  | cons r rs =>
+    have hr : r = true := hall r (by simp)
+    simp [emitPath, hr, emitPath_not_pending]
+
+/-- regenerated from `Wrapp.wrap_function`: every emission of `result_pre_call` is followed by its reset -/
+theorem result_pre_call_sites_reset : resultPreCallSites ≠ [] ∧ ∀ r ∈ resultPreCallSites, r = true := by
+  decide +kernel
+
+/-- sensitivity witness: a site that does not reset makes the path allocate twice; the first block
+    is overwritten while still owned (lost) -/
+theorem result_pre_call_twice_loses_block :
+    emitPath [(1, 3)] [false, true] true = [(1, 3), (1, 3)] ∧
+    (runEvs (emitPath [(1, 3)] [false, true] true) St.init).lost = true := by decide
+
 end Shroud.PyRes
